@@ -294,8 +294,18 @@ func c10Apply(s *c10State, op int, res *engine.Result, depth int) bool {
 		}
 	}
 	cls := kind
+	remembered := false
 	if kind == "ProcessEarlierObjectAgain" {
-		cls = "ProcessEarlierObjectAgain"
+		// does the tracker's duplicate memory still hold a record for this descriptor's signal time?
+		for i, inUse := range before.ReceivedInUse {
+			if inUse && incoming.v.HasPTS && before.ReceivedPTS[i] == incoming.v.PTS {
+				remembered = true
+			}
+		}
+		cls = "ProcessEarlierObjectAgain,signal-time-forgotten"
+		if remembered {
+			cls = "ProcessEarlierObjectAgain,signal-time-still-remembered"
+		}
 	} else if kind != "Close" {
 		switch {
 		case !incoming.v.HasPTS:
@@ -320,12 +330,6 @@ func c10Apply(s *c10State, op int, res *engine.Result, depth int) bool {
 		return true
 	}
 	after, _ := scte35.VerifDumpState(s.st)
-	if kind == "ProcessEarlierObjectAgain" && err == nil {
-		// an accepted re-submission is a new processing of the descriptor: it may be opened again even if it
-		// had been reported closed long ago (the tracker's memory is bounded); what may never happen is
-		// that it sits in the open list twice
-		delete(s.gone, incoming)
-	}
 	fail := func(clause, format string, args ...any) {
 		res.Failf(cls+"|"+clause, "%s(%s) on open=%s blackout=%v/%d: "+format,
 			append([]any{kind, c10Name(incoming), s.names(before.Open), before.InBlackout, before.BlackoutIdx}, args...)...)
@@ -431,6 +435,15 @@ func c10Apply(s *c10State, op int, res *engine.Result, depth int) bool {
 	if kind != "Close" && !incoming.v.HasPTS {
 		if err == nil {
 			fail("accepted", "a descriptor whose signal has no PTS was not rejected")
+		}
+		if !unchanged || len(closed) > 0 {
+			fail("rejected-but-list-changed", "open list changed to %s", s.names(after.Open))
+		}
+	}
+	if kind == "ProcessEarlierObjectAgain" && remembered {
+		// the descriptor was processed before and its signal time is still on record: a duplicate
+		if err != gots.ErrSCTE35DuplicateDescriptor {
+			fail("not-rejected-as-duplicate", "the descriptor was processed before and its signal time is still remembered; the call returned %v", err)
 		}
 		if !unchanged || len(closed) > 0 {
 			fail("rejected-but-list-changed", "open list changed to %s", s.names(after.Open))
@@ -737,7 +750,7 @@ func init() {
 				"distinct-pts", "distinct-pts", 4, 5),
 			&engine.Enum[c10Long]{
 				Name: "long-histories",
-				Rule: "two re-submission patterns (a chapter start, N = 0..15 other signals with other signal times that leave it open [or after it was closed explicitly], then the same object again: it may be rejected or, once forgotten, re-opened, but never sit in the open list twice) and five history patterns (start/end pairs; many chapters closed by one program end; breakaway/resumption cycles with content opened in the blackout; placement opportunities with explicit closes; nested breakaways closed by unscheduled-event and network signals) repeated N = 1..12 (thorough 1..40) times with always-distinct PTS (histories of up to ~360 calls, beyond the 10-slot duplicate ring), each also with the same object processed again after every position; the identity monitor runs after every call." + common,
+				Rule: "two re-submission patterns (a chapter start, N = 0..15 other signals with other signal times that leave it open [or after it was closed explicitly], then the same object again: while its signal time is still on record it must be rejected as a duplicate with the list unchanged; it may never sit in the open list twice; re-opening a descriptor that had been reported closed once its signal time is forgotten is the recorded known finding) and five history patterns (start/end pairs; many chapters closed by one program end; breakaway/resumption cycles with content opened in the blackout; placement opportunities with explicit closes; nested breakaways closed by unscheduled-event and network signals) repeated N = 1..12 (thorough 1..40) times with always-distinct PTS (histories of up to ~360 calls, beyond the 10-slot duplicate ring), each also with the same object processed again after every position; the identity monitor runs after every call." + common,
 				Gen: func(r *engine.Run, emit func(c10Long)) {
 					maxN := 12
 					if r.Thorough() {
